@@ -4,34 +4,96 @@ import hirq, anchors, absx
 
 EXPLANATION = ("V1 positional decode (path-sensitive abstract evaluation with a generic attribute and a generic value): the entry must be "
                "tag 4 constructed, child 0 -> dn (UTF-8), child 1 -> attribute list; per attribute child 0 -> type (UTF-8), child 1 -> "
-               "value set, each value a primitive; V2 an inductive argument over the values of one attribute: the per-value closure is "
-               "evaluated for a generic value v in every state an earlier value can leave behind (loop-carried state found by fixpoint; "
-               "it must be a boolean that starts false for every attribute), giving four situations (an earlier value was not UTF-8) x "
-               "(v is UTF-8).  v is tested for UTF-8 exactly once; if no value so far failed and v is UTF-8 the only effect is that the "
-               "vector of decoded values is inserted into `attrs` under the attribute type; if v is not UTF-8 it is pushed, unaltered, to "
-               "bin_attrs[type]; and whenever any value failed (earlier or now) the collected text values are appended, as bytes, to "
-               "bin_attrs[type] and nothing is inserted into `attrs`.  The two maps returned are distinct fresh maps. Not decided: 'no "
-               "value lost or altered' as a statement about contents; duplicate attribute types in one entry (a second insert replaces "
-               "the first).")
+               "value set, each value a primitive; V2 an inductive argument over the values of one attribute, read from the enumerated "
+               "paths of one generic iteration of the attribute loop.  What is carried from one value to the next (found by fixpoint) "
+               "may be one boolean flag that starts false and local vectors that start empty and only grow.  Step: the generic value v is "
+               "tested for UTF-8 exactly once, in every state an earlier value can leave behind; if v is UTF-8 its decoded text is added "
+               "to the text collection (the vector an iterator chain yields, or a local vector) and nothing else happens; if not, its "
+               "bytes are pushed, unaltered, to bin_attrs[type] or to a local vector of binary values, and a flag, if there is one, is "
+               "true afterwards.  Completion (values exhausted, in the state the steps leave behind - this includes no values at all): "
+               "if no value failed the only effect is that the text collection is inserted into `attrs` under the attribute type; if "
+               "any value failed (flag / non-empty binary vector / v itself) the text collection is appended, as bytes, to "
+               "bin_attrs[type], so is a local vector of binary values, and nothing is inserted into `attrs`.  The loop over the "
+               "values is only left by exhaustion.  The two maps returned are distinct fresh maps. Not decided: 'no value lost or "
+               "altered' as a statement about contents; duplicate attribute types in one entry (a second insert replaces the first).")
 TRUSTED = ['std iterator adapters (map, filter_map, collect) preserve order', 'HashMap entry API']
 UNDECIDED = ['content equality of values', 'duplicate attribute types within one entry']
 ASSUMPTIONS = ['a generic element stands for every element of a `for` / iterator chain (the loop body is the same for all)']
 
 P = 'ldap3::search::SearchEntry::construct'
 
+LOSSY = ('filter', 'filter_map', 'skip', 'take', 'step_by', 'take_while', 'skip_while', 'map_while', 'dedup', 'truncate', 'split_off', 'drain', 'retain', 'pop', 'remove',
+         'swap_remove', 'flatten', 'flat_map')
+ACCESSORS = ('entry', 'or_insert_with', 'or_default', 'or_insert', 'get_mut')
+MUTATORS = ('insert', 'push', 'extend', 'append', 'remove', 'clear', 'retain', 'drain', 'truncate', 'pop', 'extend_from_slice', 'insert_entry', 'remove_entry')
+
 def calls_in(t):
     return [x[1].rsplit('::', 1)[-1] for x in absx.leaves(t, lambda x: x[0] == 'call')]
+
+def short(e):
+    return e[1].rsplit('::', 1)[-1]
+
+def emptiness(pc, X):
+    """True / False / None: what the path knows about the vector X being empty (its own shape, or a test of is_empty / len against 0)."""
+    if X == ('vec', ()):
+        return True
+    if X[0] == 'vecpush' or (X[0] == 'vec' and X[1]):
+        return False
+    def is_len(t):
+        return t[0] == 'call' and t[1].rsplit('::', 1)[-1] == 'len' and len(t[2]) == 1 and t[2][0] == X
+    for a, t in pc:
+        if a[0] == 'call' and a[1].rsplit('::', 1)[-1] == 'is_empty' and len(a[2]) == 1 and a[2][0] == X:
+            return t
+        if a[0] == 'bin' and a[1] in ('Eq', 'Gt', 'Ge', 'Lt', 'Le'):
+            l, r = a[2], a[3]
+            if is_len(l) and r == ('lit', 0) and a[1] in ('Eq', 'Gt', 'Le'):
+                return t if a[1] in ('Eq', 'Le') else (not t)
+            if is_len(l) and r == ('lit', 1) and a[1] in ('Ge', 'Lt'):
+                return t if a[1] == 'Lt' else (not t)
+            if is_len(r) and l == ('lit', 0) and a[1] in ('Eq', 'Lt', 'Ge'):
+                return t if a[1] in ('Eq', 'Ge') else (not t)
+    return None
 
 def run(ctx):
     f = ctx.facts
     B = hirq.Body(f, f.body(P))
     ctx.analysed['bodies'].add(P)
-    outs = [o for o in absx.Interp(f, B, unroll=1, for_once=True, result_combinators=True, combinators=True).run() if o.kind in ('val', 'ret') and o.val[0] == 'struct']
-    ctx.floor('V', 'returning paths', len(outs), 2)
-    seen = set()
+    # every loop is entered from the states its back edge can carry (flags exactly, local vectors as an unknown prefix); a path ends
+    # where it reaches a back edge ('loop'), so the paths through the attribute loop are one generic iteration of it
+    I = absx.Interp(f, B, unroll=1, for_once=False, result_combinators=True, combinators=True)
+    I.carry_vecs = True
+    allouts = I.run()
+    outs = [o for o in allouts if o.kind in ('val', 'ret') and o.val[0] == 'struct']
+    ctx.floor('V', 'returning paths', len(outs), 1)
+    if not outs:
+        return
+    fl0 = dict(outs[0].val[2])
+    amap, bmap = fl0.get('attrs', ('unk',)), fl0.get('bin_attrs', ('unk',))
+
+    def peel_value(t):
+        """the generic element whose primitive content t is: t is an element of a sequence of contents, or expect_primitive of an element"""
+        if t[0] == 'elem':
+            return t
+        if t[0] == 'variant' and t[2] == 'Some' and t[1][0] == 'call' and t[1][1].endswith('::expect_primitive') and len(t[1][2]) == 1 and t[1][2][0][0] == 'elem':
+            return t[1][2][0]
+        return None
+    def is_utf8_test(a):
+        # from_utf8(v) is Ok  <=>  v is valid UTF-8  <=>  String::from_utf8_lossy(v) is Cow::Borrowed (and then borrows v itself)
+        if a[0] != 'is' or a[1][0] != 'call' or len(a[1][2]) != 1 or peel_value(a[1][2][0]) is None:
+            return False
+        fn = a[1][1].rsplit('::', 1)[-1]
+        return (a[2] == 'Ok' and fn == 'from_utf8') or (a[2] == 'Cow::Borrowed' and fn == 'from_utf8_lossy')
+    def utf8_tests(o):
+        return [(a, t) for a, t in o.st.pc if is_utf8_test(a)]
+    def rooted(t, m):
+        return t == m or bool(absx.leaves(t, lambda x: x == m))
+    def map_events(o):
+        ev = [e for e in o.st.ev if e[0] == 'call' and e[2] and short(e) in ACCESSORS + MUTATORS]
+        return [e for e in ev if rooted(e[2][0], amap)], [e for e in ev if rooted(e[2][0], bmap)]
+
     for o in outs:
         fl = dict(o.val[2])
-        dn, amap, bmap = fl.get('dn', ('unk',)), fl.get('attrs', ('unk',)), fl.get('bin_attrs', ('unk',))
+        dn = fl.get('dn', ('unk',))
         # ---- V1
         tagsn = [x for x in absx.leaves(dn, lambda x: x[0] == 'nth')]
         ok = len(tagsn) == 1 and tagsn[0][3] == 0 and 'from_utf8' in calls_in(dn) and 'expect_primitive' in calls_in(dn)
@@ -39,29 +101,118 @@ def run(ctx):
         ok = ok and 'expect_constructed' in calls_in(base) and any(x[1].endswith('match_id') and x[2][1:] == (('lit', 4),) and x[2][0] == ('field', ('param', 're'), '0')
                                                                     for x in absx.leaves(base, lambda x: x[0] == 'call'))
         ctx.add('V1.dn', 'child 0', loc(B.root), ok, 'dn is not the UTF-8 content of child 0 of the [APPLICATION 4] constructed entry: %s' % absx.fmt(dn)[:100])
-        ok = amap[0] == 'call' and bmap[0] == 'call' and amap[1].endswith('HashMap::<K, V>::new') and bmap[1].endswith('HashMap::<K, V>::new') and amap != bmap
+        am, bm = fl.get('attrs', ('unk',)), fl.get('bin_attrs', ('unk',))
+        ok = am[0] == 'call' and bm[0] == 'call' and am[1].endswith('HashMap::<K, V>::new') and bm[1].endswith('HashMap::<K, V>::new') and am != bm and (am, bm) == (amap, bmap)
         ctx.add('V1.two-maps', 'attrs/bin_attrs', loc(B.root), ok, 'the returned maps are not two distinct fresh maps')
-        muts = [e for e in o.st.ev if e[0] == 'call' and e[1].rsplit('::', 1)[-1] in ('insert', 'push', 'extend', 'entry', 'or_insert_with', 'get_mut', 'remove', 'clear')
-                and not e[1].startswith('alloc::vec::Vec::<T, A>::push') or (e[0] == 'call' and e[1].endswith('Vec::<T, A>::push'))]
-        if not muts:
-            ctx.fail('V2.attribute-stored', 'generic attribute', loc(B.root), 'on some path an attribute is stored in neither map'); continue
-        # ---- V2: the generic value v of the generic attribute, in the four situations of the inductive argument
-        #   E (an earlier value of this attribute was not UTF-8)  x  T (v is UTF-8)
-        def is_utf8_test(a):
-            # from_utf8(v) is Ok  <=>  v is valid UTF-8  <=>  String::from_utf8_lossy(v) is Cow::Borrowed (and then borrows v itself)
-            if a[0] != 'is' or a[1][0] != 'call' or len(a[1][2]) != 1 or a[1][2][0][0] != 'elem':
-                return False
-            fn = a[1][1].rsplit('::', 1)[-1]
-            return (a[2] == 'Ok' and fn == 'from_utf8') or (a[2] == 'Cow::Borrowed' and fn == 'from_utf8_lossy')
-        tests = [(a, t) for a, t in o.st.pc if is_utf8_test(a)]
+        # the entry is only returned between attributes: a returning path has not looked at a value or touched a map half-way
+        A, Bm = map_events(o)
+        ctx.add('V2.every-value-is-classified', 'return', loc(B.root), not utf8_tests(o) and not A and not Bm,
+                'the entry is returned from inside the loops over its attributes / their values: the remaining ones are lost')
+
+    # ---- the loops: the attribute loop, and (when the values are walked by a loop of their own rather than by an iterator chain) the value loop
+    iters = [o for o in allouts if o.kind == 'loop']
+    targets = []
+    for o in iters:
+        if o.target not in targets:
+            targets.append(o.target)
+    nodes = [B.by_id.get(t) for t in targets]
+    outer = inner = None
+    if len(targets) == 1 and nodes[0] is not None:
+        outer = targets[0]
+    elif len(targets) == 2 and all(n is not None for n in nodes):
+        inside = [any(x is nodes[1 - i] for x, _c in walk(nodes[i].get('body') or {'k': '?'})) for i in (0, 1)]
+        if inside[0] != inside[1]:
+            outer, inner = (targets[0], targets[1]) if inside[0] else (targets[1], targets[0])
+    if outer is None:
+        ctx.fail('V2.loop-structure', 'attribute loop / value loop', loc(B.root),
+                 'expected one loop over the attributes and at most one loop over the values of an attribute inside it (found %d loops); not decidable here' % len(targets))
+        return
+
+    def value_loop_event(e):
+        return e[0] == 'loop-carried' and (e[3]['k'] == 'Closure' or (inner is not None and e[3].get('id') == inner))
+    # a local vector that is carried stands, in the generic iteration, for whatever the earlier values left in it; the exact initial
+    # value the interpreter also starts from is an instance of that, so those paths add nothing
+    wide = {e[1] for o in iters for e in o.st.ev if e[0] == 'loop-carried' and e[2][0] == 'carried'}
+    def generic(o):
+        return all(e[2][0] == 'carried' for e in o.st.ev if e[0] == 'loop-carried' and e[1] in wide)
+    paths = [o for o in iters if generic(o)]
+    ctx.floor('V', 'paths that complete a generic attribute', len([o for o in paths if o.target == outer]), 2)
+
+    # ---- what is carried from one value to the next: at most one boolean flag, starting false; local vectors, starting empty
+    flagb, vecs, undecidable = None, set(), False
+    for o in paths:
+        for e in o.st.ev:
+            if e[0] != 'loop-carried':
+                continue
+            if not value_loop_event(e):
+                # state carried from one attribute to the next: it must not reach the classification (seen below through the initial
+                # values of the value loop's own state)
+                continue
+            if e[2] in (absx.TRUE, absx.FALSE):
+                if flagb is not None and flagb != e[1]:
+                    undecidable = True
+                flagb = e[1]
+                ctx.add('V2.flag-starts-false', 'per attribute', loc(e[3]), e[4] == absx.FALSE,
+                        'state carried from one value to the next must start as `false` for every attribute (starts as %s)' % absx.fmt(e[4]))
+            elif e[2][0] == 'carried' and e[4][0] in ('vec', 'vecpush', 'carried'):
+                vecs.add(e[1])
+                ctx.add('V2.accumulator-starts-empty', 'per attribute', loc(e[3]), e[4] == ('vec', ()),
+                        'a vector filled value by value must start empty for every attribute (starts as %s)' % absx.fmt(e[4])[:80])
+            else:
+                undecidable = True
+    if undecidable:
+        ctx.fail('V2.carried-state', 'non-boolean', loc(B.root), 'state carried across the values of one attribute is neither one boolean flag nor a vector that is filled; not decidable here')
+        return
+    for o in paths:
+        for e in o.st.ev:
+            if e[0] == 'loop-carried' and not value_loop_event(e) and (e[1] == flagb or e[1] in vecs):
+                ctx.fail('V2.flag-starts-false' if e[1] == flagb else 'V2.accumulator-starts-empty', 'carried from one attribute to the next', loc(e[3]),
+                         'the state the classification of the values keeps is carried from one attribute to the next: it must start afresh for every attribute')
+    def head(o, b):
+        for e in o.st.ev:
+            if e[0] == 'loop-carried' and e[1] == b and value_loop_event(e):
+                return e[2]
+        return None
+
+    # attribute type: from_utf8 of child 0 of the generic attribute
+    def is_type(t):
+        ns = [x for x in absx.leaves(t, lambda x: x[0] == 'nth')]
+        return len(ns) >= 1 and ns[0][3] == 0 and 'from_utf8' in calls_in(t) and bool(absx.leaves(ns[0][1], lambda x: x[0] == 'elem'))
+    def values_src_ok(t):
+        ns = [x for x in absx.leaves(t, lambda x: x[0] == 'nth' and absx.leaves(x[1], lambda y: y[0] == 'elem'))]
+        return any(x[3] == 1 for x in ns) and 'expect_constructed' in calls_in(t) and 'expect_primitive' in calls_in(t)
+    def keyed(t):
+        """the place t inside bin_attrs is the entry of the attribute's type"""
+        return any(x[1].rsplit('::', 1)[-1] in ('entry', 'get_mut') and len(x[2]) >= 2 and x[2][0] == bmap and is_type(x[2][1]) for x in absx.leaves(t, lambda x: x[0] == 'call'))
+
+    # ---- pass 1, the steps: every path that classifies the generic value v
+    info = {}
+    text_into, bin_into = set(), set()       # where a text / binary value goes: a local vector (its binding), 'chain' (what the iterator chain yields), 'direct' (bin_attrs[type])
+    for o in paths:
+        tests = utf8_tests(o)
+        d = info[id(o)] = {'tests': tests, 'ok': True}
+        A, Bm = map_events(o)
+        d['A'], d['Bm'] = A, Bm
+        completes = o.target == outer
+        if inner is not None:
+            if completes:
+                # the values were walked by a loop of their own: it has to be left by exhaustion, after which no value is looked at
+                done = any(a[0] == 'for-more' and a[1] == inner and not t for a, t in o.st.pc)
+                if not ctx.add('V2.every-value-is-classified', 'value loop left by exhaustion', loc(B.root), done and not tests,
+                               'an attribute is completed although the loop over its values was left early (break / continue of the attribute loop): the remaining values are lost'):
+                    d['ok'] = False
+                continue
         if len({a for a, t in tests}) != 1:
-            ctx.fail('V2.single-utf8-test', 'value', loc(B.root), 'each value must be tested for UTF-8 exactly once (found %d tests)' % len(tests)); continue
+            ctx.fail('V2.single-utf8-test', 'value', loc(B.root), 'each value must be tested for UTF-8 exactly once (found %d tests)' % len(tests))
+            d['ok'] = False
+            continue
         test, is_text = tests[0]
-        v = test[1][2][0]          # the tested bytes: the generic value element
+        v = test[1][2][0]          # the tested bytes: the primitive content of the generic value element
+        d['test'], d['is_text'] = test, is_text
         # every value of the set reaches the classification: between the attribute's decoded value set and the UTF-8 test there are
         # only total, element-wise conversions - no adaptor that can drop, skip or cut elements
-        LOSSY = ('filter', 'filter_map', 'skip', 'take', 'step_by', 'take_while', 'skip_while', 'map_while', 'dedup', 'truncate', 'split_off', 'drain', 'retain', 'pop', 'remove', 'swap_remove', 'flatten', 'flat_map')
-        lvl, lossy = (v[1] if v[0] == 'elem' else v), None
+        el = peel_value(v)
+        lvl, lossy = el[1], None
         depth_l = 0
         while lvl[0] == 'many' and depth_l < 8:
             depth_l += 1
@@ -71,58 +222,148 @@ def run(ctx):
         bad_calls = [c for c in calls_in(lvl) if c in LOSSY]
         if bad_calls:
             lossy = 'the value set goes through %s before it is classified' % bad_calls[0]
-        ctx.add('V2.every-value-is-classified', 'value set', loc(B.root), v[0] == 'elem' and lossy is None,
-                'a value of the attribute can be dropped before it is classified as text or binary: %s' % (lossy or 'the tested bytes are not an element of the value set'))
-        carried = [e for e in o.st.ev if e[0] == 'loop-carried' and e[3]['k'] == 'Closure']
-        for e in carried:
-            ctx.add('V2.flag-starts-false', 'per attribute', loc(e[3]), e[4] == absx.FALSE,
-                    'state carried from one value to the next must start as `false` for every attribute (starts as %s)' % absx.fmt(e[4]))
-        earlier = any(e[2] == absx.TRUE for e in carried)
-        if any(e[2] not in (absx.TRUE, absx.FALSE) for e in carried):
-            ctx.fail('V2.carried-state', 'non-boolean', loc(B.root), 'state carried across the values of one attribute is not a boolean flag; not decidable here'); continue
-        # attribute type: from_utf8 of child 0 of the generic attribute
-        def is_type(t):
-            ns = [x for x in absx.leaves(t, lambda x: x[0] == 'nth')]
-            return len(ns) >= 1 and ns[0][3] == 0 and 'from_utf8' in calls_in(t) and bool(absx.leaves(ns[0][1], lambda x: x[0] == 'elem'))
-        def values_src_ok(t):
-            ns = [x for x in absx.leaves(t, lambda x: x[0] == 'nth' and absx.leaves(x[1], lambda y: y[0] == 'elem'))]
-            return any(x[3] == 1 for x in ns) and 'expect_constructed' in calls_in(t) and 'expect_primitive' in calls_in(t)
-        def rooted(t, m):
-            return t == m or bool(absx.leaves(t, lambda x: x == m))
-        def keyed(t):
-            """the place t inside bin_attrs is the entry of the attribute's type"""
-            return any(x[1].rsplit('::', 1)[-1] in ('entry', 'get_mut') and len(x[2]) >= 2 and x[2][0] == bmap and is_type(x[2][1]) for x in absx.leaves(t, lambda x: x[0] == 'call'))
-        def same_bytes(t):
+        if lossy is None and not values_src_ok(v):
+            lossy = 'the tested bytes are not the primitive content of an element of child 1 of the attribute'
+        ctx.add('V2.every-value-is-classified', 'value set', loc(B.root), lossy is None,
+                'a value of the attribute can be dropped before it is classified as text or binary: %s' % lossy)
+        decoded = ('variant', test[1], test[2], 0)
+        def same_bytes(t, v=v, test=test):
             """t is v itself, or the bytes handed back by the failed String::from_utf8(v)"""
             # (FromUtf8Error::into_bytes is a transparent conversion in the term domain: the error of String::from_utf8 owns the bytes)
             return t == v or (t == ('variant', test[1], 'Err', 0) and test[1][1].endswith('string::String::from_utf8'))
-        A = [e for e in muts if rooted(e[2][0], amap)]
-        Bm = [e for e in muts if rooted(e[2][0], bmap)]
-        inserts = [e for e in A if e[1].rsplit('::', 1)[-1] == 'insert']
-        pushes = [e for e in Bm if e[1].rsplit('::', 1)[-1] == 'push']
-        extends = [e for e in Bm if e[1].rsplit('::', 1)[-1] in ('extend', 'append')]
-        def text_vector(t):
-            """the vector of text values: filter_map/map over the value set whose element is the decoded v (or skipped when v is not UTF-8)"""
-            return t[0] == 'many' and values_src_ok(t[1]) and t[3] == (('variant', test[1], test[2], 0) if is_text else ('skip',))
-        def as_bytes_of_text_vector(t):
-            return text_vector(t) or (t[0] == 'many' and t[3] == t[2] and text_vector(t[1]))
-        sit = '%s value, %s' % ('UTF-8' if is_text else 'non-UTF-8', 'an earlier value was non-UTF-8' if earlier else 'no earlier non-UTF-8 value')
-        seen.add(('text' if is_text else 'binary', earlier))
-        if is_text and not earlier:
-            ok = len(inserts) == 1 and len(A) == 1 and not Bm and inserts[0][2][0] == amap and is_type(inserts[0][2][1]) and text_vector(inserts[0][2][2])
+        pushes = [e for e in o.st.ev if e[0] == 'call' and short(e) == 'push' and len(e[2]) == 2]
+        local = [(b, e) for e in pushes for b in vecs if e[2][0] == head(o, b)]
+        direct = [e for e in pushes if rooted(e[2][0], bmap)]
+        d['direct'] = direct
+        if inner is not None and o.target != inner:
+            ctx.fail('V2.every-value-is-classified', 'value loop left by exhaustion', loc(B.root),
+                     'the loop over the values of an attribute is left after a value has been looked at: the remaining values are lost')
+            d['ok'] = False
+            continue
+        if flagb is not None and head(o, flagb) is not None:
+            # the flag says, after v, whether any value so far failed (it is what the next value and the completion see); a computed
+            # value (`flag |= res.is_err()`) is read under the path condition
+            hv, tv = head(o, flagb), o.st.env.get(flagb)
+            want = hv == absx.TRUE or not is_text
+            def truth(t):
+                if t in (absx.TRUE, absx.FALSE):
+                    return t == absx.TRUE
+                if t is None:
+                    return None
+                if t[0] == 'not':
+                    r = truth(t[1])
+                    return None if r is None else (not r)
+                if t[0] == 'bin' and t[1] in ('Or', 'BitOr', 'And', 'BitAnd'):
+                    l, r = truth(t[2]), truth(t[3])
+                    if t[1] in ('Or', 'BitOr'):
+                        return True if (l or r) else (False if (l is False and r is False) else None)
+                    return False if (l is False or r is False) else (True if (l and r) else None)
+                return o.st.known(t)
+            ctx.add('V2.flag-tracks-non-utf8-seen', '%s value, flag was %s' % ('UTF-8' if is_text else 'non-UTF-8', absx.fmt(hv)), loc(B.root), truth(tv) is want,
+                    'after this value the flag must be %s (whether any value so far was not UTF-8); it is %s' % (want, absx.fmt(tv)[:80] if tv else '?'))
+        if is_text:
+            if len(local) == 1 and local[0][1][2][1] == decoded and len(pushes) == 1:
+                text_into.add(local[0][0])
+            elif not local:
+                text_into.add('chain')
+            else:
+                text_into.add('?')
+            ctx.add('V2.text-value-not-pushed-twice', 'UTF-8 value', loc(B.root), not direct and len(local) <= 1,
+                    'a UTF-8 value reaches bin_attrs only through the text vector, and the text vector once')
+        else:
+            tgt = None
+            if len(pushes) == 1 and same_bytes(pushes[0][2][1]):
+                if len(local) == 1:
+                    tgt = local[0][0]
+                elif len(direct) == 1 and keyed(direct[0][2][0]):
+                    tgt = 'direct'
+            ctx.add('V2.binary-value-pushed', 'non-UTF-8 value', loc(B.root), tgt is not None,
+                    'a non-UTF-8 value must be pushed, unaltered, to bin_attrs[type] or to the vector of binary values (and nothing else pushed): %s' % [absx.fmt(e[2][1])[:60] for e in pushes])
+            bin_into.add(tgt or '?')
+        if not completes:
+            # a step that does not complete the attribute leaves both maps alone, except for the push of a binary value to bin_attrs[type]
+            okm = not A and all(short(e) == 'get_mut' or (not is_text and (short(e) in ACCESSORS or e in direct)) for e in Bm)
+            ctx.add('V2.maps-change-only-at-completion', '%s value' % ('UTF-8' if is_text else 'non-UTF-8'), loc(B.root), okm,
+                    'while the values are walked the maps may only receive a binary value (`attrs` receives the vector of all decoded values once the value set is exhausted): '
+                    'attrs %s, bin_attrs %s' % ([short(e) for e in A], [short(e) for e in Bm]))
+    textb = next(iter(text_into)) if len(text_into) == 1 else None
+    binb = next(iter(bin_into)) if len(bin_into) == 1 else None
+    if text_into and (textb in (None, '?') or (textb != 'chain' and textb == binb)):
+        ctx.fail('V2.all-text-attribute-goes-to-attrs', 'text collection', loc(B.root), 'the decoded text values are not collected in one place (%s)' % sorted(map(str, text_into)))
+        textb = None
+    if bin_into and binb in (None, '?'):
+        ctx.fail('V2.binary-value-pushed', 'binary collection', loc(B.root), 'the non-UTF-8 values are not collected in one place (%s)' % sorted(map(str, bin_into)))
+        binb = None
+    # the vectors only grow: besides `push` (modelled) nothing is called on them but observers, and they are only handed on whole
+    for o in paths:
+        cur = {x for b in vecs for x in (head(o, b), o.st.env.get(b)) if x is not None}
+        for e in o.st.ev:
+            if e[0] != 'call':
+                continue
+            for i, a in enumerate(e[2]):
+                if a in cur and a[0] in ('carried', 'vecpush'):
+                    okc = short(e) in (('push', 'is_empty', 'len') if i == 0 else ('extend', 'append', 'insert'))
+                    ctx.add('V2.accumulators-only-grow', short(e), loc(e[3]) if isinstance(e[3], dict) else loc(B.root), okc,
+                            'a vector that collects values is handed to `%s`: it may lose or reorder what it holds; not decidable here' % short(e))
+
+    # ---- pass 2, the completions: what the maps receive when the values of the attribute are exhausted
+    seen = set()
+    for o in paths:
+        d = info[id(o)]
+        if not d['ok']:
+            continue
+        completes = o.target == outer
+        is_text = d.get('is_text')
+        A, Bm = d['A'], d['Bm']
+        # E: whether an earlier value was not UTF-8 - what the flag says (it tracks that, by the step obligations), else whether the
+        # vector of binary values is empty
+        if flagb is not None:
+            hv = head(o, flagb)
+            E = True if hv == absx.TRUE else (False if hv == absx.FALSE else None)
+        elif binb in vecs:
+            em = emptiness(o.st.pc, head(o, binb))
+            E = None if em is None else (not em)
+        else:
+            E = None
+        if is_text is not None:
+            for e_ in ((False, True) if E is None else (E,)):
+                seen.add(('text' if is_text else 'binary', e_))
+        if not completes:
+            continue
+        any_bin = True if is_text is False else E
+        sit = ('%s value, ' % ('UTF-8' if is_text else 'non-UTF-8') if is_text is not None else 'values exhausted, ') + \
+              ('an earlier value was non-UTF-8' if E else 'no earlier non-UTF-8 value' if E is False else 'earlier values unknown')
+        if not A and not [e for e in Bm if short(e) in MUTATORS]:
+            ctx.fail('V2.attribute-stored', 'generic attribute', loc(B.root), 'on some path an attribute is stored in neither map'); continue
+        if any_bin is None:
+            ctx.fail('V2.mixed-attribute-moves-text-to-bin_attrs', sit, loc(B.root),
+                     'the attribute is completed on a path that does not know whether one of its values was not UTF-8'); continue
+        seen.add(('complete', any_bin))
+        test = d.get('test')
+        def text_vector(t, test=test, is_text=is_text):
+            """the collection of text values: filter_map/map over the value set whose element is the decoded v (or skipped when v is not
+            UTF-8), or the local vector the steps push the decoded values to"""
+            if textb in vecs:
+                return t == o.st.env.get(textb)
+            return test is not None and t[0] == 'many' and values_src_ok(t[1]) and t[3] == (('variant', test[1], test[2], 0) if is_text else ('skip',))
+        def as_bytes(t, pred):
+            return pred(t) or (t[0] == 'many' and t[3] == t[2] and pred(t[1]))
+        inserts = [e for e in A if short(e) == 'insert']
+        if not any_bin:
+            ok = len(inserts) == 1 and len(A) == 1 and not Bm and inserts[0][2][0] == amap and len(inserts[0][2]) == 3 and is_type(inserts[0][2][1]) and text_vector(inserts[0][2][2])
             ctx.add('V2.all-text-attribute-goes-to-attrs', sit, loc(B.root), ok,
                     'the vector of decoded values must be inserted into `attrs` under the attribute type, and nothing into bin_attrs: attrs %s, bin_attrs %s' % (
-                        [e[1].split('::')[-1] for e in A], [e[1].split('::')[-1] for e in Bm]))
+                        [short(e) for e in A], [short(e) for e in Bm]))
             continue
-        okp = True
-        if not is_text:
-            okp = len(pushes) == 1 and keyed(pushes[0][2][0]) and same_bytes(pushes[0][2][1])
-            ctx.add('V2.binary-value-pushed', sit, loc(B.root), okp, 'a non-UTF-8 value must be pushed, unaltered, to bin_attrs[type]: %s' % [absx.fmt(e[2][1])[:60] for e in pushes])
-        else:
-            ctx.add('V2.text-value-not-pushed-twice', sit, loc(B.root), not pushes, 'a UTF-8 value reaches bin_attrs only through the text vector')
-        okx = len(extends) == 1 and keyed(extends[0][2][0]) and as_bytes_of_text_vector(extends[0][2][1])
+        muts = [e for e in Bm if short(e) in MUTATORS and e not in d.get('direct', [])]
+        okx = all(short(e) in ('extend', 'append') and len(e[2]) == 2 and keyed(e[2][0]) for e in muts)
+        texts = [e for e in muts if okx and as_bytes(e[2][1], text_vector)]
+        bins = [e for e in muts if okx and binb in vecs and e[2][1] == o.st.env.get(binb)]
+        okx = okx and len(texts) == 1 and len(bins) == (1 if binb in vecs else 0) and len(muts) == len(texts) + len(bins)
         ctx.add('V2.mixed-attribute-moves-text-to-bin_attrs', sit, loc(B.root), okx and not A,
-                'once any value of the attribute is not UTF-8, the text values collected must be appended (as bytes) to bin_attrs[type] and the attribute must not appear in `attrs`: attrs %s, bin_attrs %s' % (
-                    [e[1].split('::')[-1] for e in A], [e[1].split('::')[-1] for e in Bm]))
+                'once any value of the attribute is not UTF-8, the text values collected (and the binary ones, if collected apart) must be appended (as bytes) to bin_attrs[type] and the '
+                'attribute must not appear in `attrs`: attrs %s, bin_attrs %s' % ([short(e) for e in A], [short(e) for e in Bm]))
     for need in (('text', False), ('binary', False), ('text', True), ('binary', True)):
         ctx.add('V2.coverage', '%s value, earlier binary=%s' % need, loc(B.root), need in seen, 'no path for this situation')
+    for need in (False, True):
+        ctx.add('V2.coverage', 'attribute completed, some value non-UTF-8=%s' % need, loc(B.root), ('complete', need) in seen, 'no path for this situation')
